@@ -1397,15 +1397,71 @@ static inline uint64_t ll2c_f64_bits(double f) { union { uint64_t i; double f; }
 '''
 
 
-def emit_closure(mod, roots, srcroot='/repo/'):
-    """returns (c_text, info) for the call-graph closure of roots"""
+def pure_stub(em, fn):
+    """Replace a callee by the contract `pure function of its arguments; assigns nothing`:
+    an unconstrained but deterministic result, keyed on the bit patterns of the scalar arguments
+    (pointer-to-scalar arguments are read, as a `const T&` parameter is).  Two memo slots."""
+    f = em.mod.funcs[fn]
+    if isinstance(f.ret, VoidT) or not isinstance(f.ret, (IntT, FpT)):
+        raise Unsupported('pure-function abstraction needs a scalar result: %s' % fn)
+    keys = []
+    ps = []
+    for (t, nm, at) in f.params:
+        cn = em.lname(nm)
+        ps.append('%s %s' % (em.cty(t), cn))
+        if isinstance(t, (IntT, FpT)):
+            keys.append((t, cn))
+        elif isinstance(t, PtrT) and isinstance(t.e, (IntT, FpT)):
+            keys.append((t.e, '(*%s)' % cn))
+        elif isinstance(t, PtrT) and isinstance(t.e, NamedT) and not (em.mod.types.get(t.e.n) or []):
+            pass   # pointer to an empty class (`this` of a stateless functor)
+        elif isinstance(t, PtrT) and isinstance(t.e, NamedT) and all(isinstance(x, IntT) and x.w == 8 for x in em.mod.types.get(t.e.n)) \
+                and len(em.mod.types.get(t.e.n)) == 1:
+            pass   # empty class lowered as { i8 }
+        else:
+            raise Unsupported('pure-function abstraction: parameter %s of %s' % (t, fn))
+
+    def bits(t, e):
+        if isinstance(t, FpT): return 'll2c_%s_bits(%s)' % ('f32' if t.k == 'float' else 'f64', e)
+        return '((uint64_t)%s)' % e
+    nm = em.fname(fn)
+    rt = em.cty(f.ret)
+    L = []
+    proto = '%s %s(%s)' % (rt, nm, ', '.join(ps) or 'void')
+    nk = len(keys)
+    L.append('static _Bool %s_set[2]; static uint64_t %s_key[2][%d]; static %s %s_val[2]; static unsigned %s_calls;' % (nm, nm, max(nk, 1), rt, nm, nm))
+    L.append(proto + ' {')
+    L.append('  uint64_t k[%d] = {%s};' % (max(nk, 1), ', '.join(bits(t, e) for t, e in keys) or '0'))
+    L.append('  %s_calls++;' % nm)
+    L.append('  for (int s = 0; s < 2; s++) { if (%s_set[s]) { _Bool eq = 1; for (int i = 0; i < %d; i++) eq = eq && (%s_key[s][i] == k[i]); if (eq) return %s_val[s]; } }' % (nm, max(nk, 1), nm, nm))
+    L.append('  %s nd_;' % rt)
+    if isinstance(f.ret, FpT):
+        # second clause of the contract (proved on the real body by a companion obligation): a NaN argument gives a NaN result
+        nanarg = ' || '.join('(%s != %s)' % (e, e) for t, e in keys if isinstance(t, FpT)) or '0'
+        L.append('  __CPROVER_assume(!(%s) || (nd_ != nd_));   /* callee contract: NaN in ==> NaN out */' % nanarg)
+    L.append('  int slot = %s_set[0] ? 1 : 0;' % nm)
+    L.append('  %s_set[slot] = 1; for (int i = 0; i < %d; i++) %s_key[slot][i] = k[i]; %s_val[slot] = nd_;' % (nm, max(nk, 1), nm, nm))
+    L.append('  return nd_;')
+    L.append('}')
+    return proto, '\n'.join(L), set()
+
+
+def emit_closure(mod, roots, srcroot='/repo/', abstract=()):
+    """returns (c_text, info) for the call-graph closure of roots.  Functions whose mangled name matches a
+    regex in `abstract` are replaced by the pure-function contract stub."""
     em = Emitter(mod, srcroot=srcroot)
     done = set(); order = []; protos = []
+    abstracted = []
+    rxs = [re.compile(a) for a in abstract]
 
     def visit(n):
         if n in done: return
         done.add(n)
-        proto, text, calls = em.translate(n)
+        if any(r.search(n) for r in rxs) and n not in roots:
+            proto, text, calls = pure_stub(em, n)
+            abstracted.append(n)
+        else:
+            proto, text, calls = em.translate(n)
         protos.append(proto + ';')
         for c in sorted(calls): visit(c)
         order.append(text)
@@ -1417,7 +1473,7 @@ def emit_closure(mod, roots, srcroot='/repo/'):
     types = em.emit_types()
     text = '\n'.join([PRELUDE, types, gl, stubs, '\n'.join(protos), '\n\n'.join(order)])
     info = {'functions': sorted(done), 'stubs': sorted(em.stubs_used), 'libm_models': sorted(em.pure_used),
-            'global_stores': em.global_stores, 'assert_sites': em.assert_sites}
+            'global_stores': em.global_stores, 'assert_sites': em.assert_sites, 'abstracted': abstracted}
     return text, info
 
 
